@@ -92,6 +92,34 @@ def run(ctx, config='rel-all'):
     # destructor or closure that only runs while unwinding)
     from . import unwindstate
     unwindstate.check(ctx, ctx.db(config), A, 'R13')
+    # ---- R14 what the arena releases on its own initiative is a whole block it reserved: every call of the unsafe release
+    # (dealloc(ptr, layout)) made inside an arena entry point either forwards the entry's own (ptr, layout) parameters (the
+    # Allocator / Alloc glue: the caller vouches) or passes the pointer *and the layout* of a reservation made in the same call.
+    # Releasing a prefix of a live block ("give the Result's tag back") lets dealloc's rounding move the finger into the rest.
+    n14 = 0
+    for key, val in A.items():
+        if val is None:
+            continue
+        I, res, body = val
+        for i, e in enumerate(res.events):
+            if e.kind != 'call' or not e.callee or not ('Bump' in e.callee and e.callee.split('::')[-1] == 'dealloc') or len(e.args or ()) < 3:
+                continue
+            n14 += 1
+            ptr, lay = e.args[1], e.args[2]
+            params = {('param', k) for k in range(1, 8)}
+            from_params = any(p in subterms(ptr) or p == ptr for p in params) and (lay in params or any(p in subterms(lay) for p in params))
+            resv = [x for x in res.events[:i] if x.kind == 'call' and x.callee and x.callee.split('::')[-1] in ('try_alloc_layout', 'alloc_layout') and 'Bump' in x.callee and len(x.args or ()) > 1]
+            whole = any(x.args[1] == lay and x.ret is not None and (x.ret == ptr or x.ret in subterms(ptr)) for x in resv)
+            fn = arena.short(arena.innermost(e))
+            if whole:
+                ctx.ok('R14', '%s via %s: releases the pointer and the layout of a reservation made in this call' % (fn, key), 'term identity')
+            elif from_params and not resv:
+                ctx.ok('R14', '%s via %s: forwards the caller\'s (ptr, layout)' % (fn, key), 'parameters of the entry point')
+            elif from_params and key.split('::')[0] in ('Allocator', 'Alloc'):
+                ctx.ok('R14', '%s via %s: forwards the caller\'s (ptr, layout)' % (fn, key), 'parameters of the entry point')
+            else:
+                ctx.violation('R14', fn, 'partial-release:%s' % key, '%s (via %s) releases (%s, %s), which is not the pointer together with the layout of a reservation made in the same call: part of a live block is handed back and the rounded finger may land inside the rest' % (fn, key, show(ptr)[:60], show(lay)[:60]), e.span)
+    ctx.floor('R14', n14, 3, 'in-crate calls of the unsafe release')
     # ---- R10 the crate's own clients of the arena keep the allocation contract
     from . import clients
     clients.check(ctx, config, 'R10')
